@@ -5,12 +5,18 @@ package main
 import (
 	"fmt"
 	"os"
+	"strconv"
 
 	"github.com/resonatehq/resonate/internal/verif/runner"
 	"github.com/resonatehq/resonate/internal/verif/threx"
 )
 
 func main() {
+	if n := os.Getenv("THREX_FREERUN"); n != "" {
+		it, _ := strconv.Atoi(n)
+		threx.FreeRunMain(os.Getenv("VERIF_PROP"), it)
+		return
+	}
 	f, ok := threx.Specs[os.Getenv("VERIF_PROP")]
 	if !ok {
 		fmt.Fprintf(os.Stderr, "threx: unknown property %q (set VERIF_PROP)\n", os.Getenv("VERIF_PROP"))
